@@ -489,6 +489,132 @@ def instr_rules(prog, chk, pid):
     chk.require(okg, P_("unknown-interface-rejected"), fi.qualname, "protocol not in BF2_INTERFACES -> raise UnsupportedBf2InstrError", g[0].where if g else where, "an unknown interface name is reported instead of being mapped", "unknown interface names are not reported")
 
 
+def filter_render_scenarios(prog, chk, pid, tier):
+    """pfid2_filter_to_str: for every filter STRUCTURE of up to 4 entries (continuation bit 15 / negation bit 14 per entry; hardware
+    ids are distinct placeholders) the rendered text, parsed with the usual precedence (! over & over |, parentheses), is the
+    same boolean function of the hardware ids as the filter bytes: AND over groups, a group being the OR of the entries chained
+    by bit 15, bit 14 negating an entry.  The function is interpreted on constant filters (concrete-control mode)."""
+    import itertools
+    import re as _re
+
+    from rules import stackrt as R
+
+    P_ = lambda s_: "%s.%s" % (pid, s_)
+    fi = prog.func(BF3 + ".pfid2_filter_to_str")
+    where = "%s:%d" % (fi.file, fi.lineno)
+    stk = R.Stack(prog)
+    ids = [0x1101, 0x1202, 0x1303, 0x1404]
+
+    def render(entries):
+        body = b"".join(((0x8000 if more else 0) | (0x4000 if neg else 0) | hid).to_bytes(2, "big") for more, neg, hid in entries)
+        raw = bytes([1, len(entries)]) + body
+        ex, res = stk.run(BF3, "def drv():\n    return pfid2_filter_to_str(%r)\n" % raw, {})
+        if res.dead or res.ret is None or not is_const(res.ret) or not isinstance(cval(res.ret), str):
+            return None
+        return cval(res.ret)
+
+    atoms = {}
+    for hid in ids:
+        t = render([(0, 0, hid)])
+        if t is None or not _re.fullmatch(r"[A-Za-z0-9_x]+", t):
+            chk.fail(P_("filter-rendering"), fi.qualname, "single entry 0x%04X" % hid, where, "a one-entry filter is not rendered as a plain name (%r)" % (t,))
+            return
+        atoms[hid] = t
+
+    def parse(text):
+        toks = _re.findall(r"\(|\)|&|\||!|[A-Za-z0-9_x]+", text)
+        if "".join(toks) != text.replace(" ", ""):
+            raise ValueError("unexpected characters")
+        pos = [0]
+
+        def peek():
+            return toks[pos[0]] if pos[0] < len(toks) else None
+
+        def eat(t=None):
+            tok = peek()
+            if tok is None or (t is not None and tok != t):
+                raise ValueError("expected %s, got %s" % (t, tok))
+            pos[0] += 1
+            return tok
+
+        def p_or():
+            n = ["or", p_and()]
+            while peek() == "|":
+                eat()
+                n.append(p_and())
+            return n if len(n) > 2 else n[1]
+
+        def p_and():
+            n = ["and", p_not()]
+            while peek() == "&":
+                eat()
+                n.append(p_not())
+            return n if len(n) > 2 else n[1]
+
+        def p_not():
+            if peek() == "!":
+                eat()
+                return ["not", p_not()]
+            if peek() == "(":
+                eat()
+                n = p_or()
+                eat(")")
+                return n
+            return ["atom", eat()]
+
+        tree = p_or()
+        if peek() is not None:
+            raise ValueError("trailing tokens")
+        return tree
+
+    def ev(tree, env):
+        k = tree[0]
+        if k == "atom":
+            return env[tree[1]]
+        if k == "not":
+            return not ev(tree[1], env)
+        if k == "and":
+            return all(ev(x, env) for x in tree[1:])
+        return any(ev(x, env) for x in tree[1:])
+
+    def semantics(entries, env):
+        groups, cur = [], []
+        for more, neg, hid in entries:
+            cur.append(env[atoms[hid]] != bool(neg))
+            if not more:
+                groups.append(any(cur))
+                cur = []
+        return all(groups)
+
+    bad = None
+    n = 0
+    maxn = 4
+    for k in range(1, maxn + 1):
+        for flags in itertools.product([(0, 0), (0, 1), (1, 0), (1, 1)], repeat=k):
+            if flags[-1][0]:
+                continue  # the last entry closes its group
+            entries = [(m_, ng, ids[i]) for i, (m_, ng) in enumerate(flags)]
+            n += 1
+            text = render(entries)
+            label = " ".join("%04X" % ((0x8000 if m_ else 0) | (0x4000 if ng else 0) | h) for m_, ng, h in entries)
+            if text is None:
+                bad = bad or (label, "is not rendered to a text")
+                continue
+            try:
+                tree = parse(text)
+            except (ValueError, IndexError) as e_:
+                bad = bad or (label, "renders as %r, which is not a boolean expression (%s)" % (text, e_))
+                continue
+            names = [atoms[h] for _, _, h in entries]
+            for vals in itertools.product([False, True], repeat=k):
+                env = dict(zip(names, vals))
+                if ev(tree, env) != semantics(entries, env):
+                    bad = bad or (label, "renders as %r, which differs from the filter for %s" % (text, {a: int(v) for a, v in env.items()}))
+                    break
+    chk.require(bad is None, P_("filter-rendering"), fi.qualname, "%d filter structures of 1..%d entries" % (n, maxn), where,
+                "the rendered expression is equivalent to the filter bytes for every arrangement of OR-continuation and negation bits", "filter %s %s" % bad if bad else "")
+
+
 def filter_rules(prog, chk, pid):
     P_ = lambda s: "%s.%s" % (pid, s)
     fi = prog.func(BF3 + ".pfid2_filter_to_str")
@@ -530,3 +656,4 @@ def run(prog, chk, tier):
     table_rules(prog, chk, "C13")
     instr_rules(prog, chk, "C13")
     filter_rules(prog, chk, "C13")
+    stackrt.guarded(chk, "C13.filter-rendering", filter_render_scenarios, prog, chk, "C13", tier)
